@@ -405,6 +405,72 @@ def run_vanished_file(res, scratch, rng):
             s.discard()
 
 
+def run_closed(res, scratch, rng):
+    """Reads and no-op writes on a database object that has been close()d (every access mode): whether they raise or
+    answer, the file keeps its bytes and nothing is left behind."""
+    from tinyflux import FieldQuery, MeasurementQuery, TagQuery
+
+    for mode in ("r+", "w+", "r", "a"):
+        for auto in ((True, False) if mode != "a" else (False,)):
+            base = Session(default_config("csv", True, access_mode="w+" if mode == "w+" else "r+"), scratch)
+            try:
+                with quiet_stdout():
+                    for _ in range(4):
+                        base.do({"op": "insert", "p": gen.gen_point(rng, gen.MEAS, False)})
+                    if mode == "w+":
+                        s = base
+                    else:
+                        base.db.close()
+                        s = Session(default_config("csv", auto, access_mode=mode), scratch, path=base.path)
+                    w = Watch(s, scratch)
+                    how = rng.choice(["close", "with"])
+                    if how == "close":
+                        s.db.close()
+                    else:
+                        with s.db:
+                            pass
+                    calls = [
+                        ("all", lambda db: db.all()), ("iter", lambda db: list(iter(db))), ("len", lambda db: len(db)),
+                        ("search", lambda db: db.search(TagQuery().k == "a")), ("count", lambda db: db.count(FieldQuery().x > 0)),
+                        ("get", lambda db: db.get(MeasurementQuery() == "m0")), ("contains", lambda db: db.contains(TagQuery().k.exists())),
+                        ("select", lambda db: db.select("tags.k", MeasurementQuery().noop())),
+                        ("get_measurements", lambda db: db.get_measurements()), ("get_tag_values", lambda db: db.get_tag_values()),
+                        ("get_field_values", lambda db: db.get_field_values("x")), ("get_timestamps", lambda db: db.get_timestamps()),
+                        ("handle.all", lambda db: db.measurement("m0").all()), ("handle.len", lambda db: len(db.measurement("m0"))),
+                        ("reindex", lambda db: db.reindex()),
+                        ("insert_multiple([])", lambda db: db.insert_multiple([])),
+                        ("remove(no match)", lambda db: db.remove(TagQuery().nokey == "zz")),
+                        ("update(no match)", lambda db: db.update(TagQuery().nokey == "zz", tags={"zz": "1"})),
+                        ("drop_measurement(absent)", lambda db: db.drop_measurement("never-a-measurement")),
+                        ("handle.remove_all(absent)", lambda db: db.measurement("never-a-measurement").remove_all()),
+                        ("close again", lambda db: db.close()),
+                    ]
+                    rng.shuffle(calls)
+                    for label_, call in calls:
+                        before = w.snap()
+                        exc = None
+                        try:
+                            call(s.db)
+                        except Exception as e:  # noqa: BLE001
+                            exc = e
+                        after = w.snap()
+                        res.evaluations += 1
+                        res.count("calls_on_closed_database")
+                        res.count("calls_on_closed_database.raised" if exc is not None else "calls_on_closed_database.answered")
+                        res.seen(("closed", mode, auto, label_))
+                        if after != before:
+                            res.violate(Violation(
+                                "C15", "call-on-closed-database-changed-files",
+                                {"config": cfg_name(s.cfg), "closed_by": how, "call": label_, "raised": None if exc is None else f"{type(exc).__name__}: {exc}"[:120],
+                                 "before": {k: (v if k != "digest" else v) for k, v in before.items()}, "after": after},
+                                replay={"cfg": s.cfg, "ops": list(s.log), "call": label_},
+                                features={"op": label_, "class": "closed", "mode": mode},
+                            ))
+                            return
+            finally:
+                base.discard()
+
+
 def run(res, tier, seed, shard, nshards):
     res.rule = (
         "seeded histories on CSV databases (auto_index on/off) with a private temp directory; before and after EVERY op "
@@ -421,12 +487,15 @@ def run(res, tier, seed, shard, nshards):
             run_modes(res, scratch, rng_for("C15", tier, seed, shard, "modes", h))
         for h in range(2 if tier == "quick" else 12):
             run_vanished_file(res, scratch, rng_for("C15", tier, seed, shard, "vanished", h))
+        for h in range(1 if tier == "quick" else 10):
+            run_closed(res, scratch, rng_for("C15", tier, seed, shard, "closed", h))
         for h in range(2 if tier == "quick" else 20):
             run_io_fault_leftovers(res, scratch, rng_for("C15", tier, seed, shard, "iofault", h), tier)
     for k in ("read", "noop-write", "rejected-write"):
         res.require(f"bytes_unchanged_checks.{k}")
     res.require("listing_checks_after_raising_call")
     res.require("vanished_file_calls")
+    res.require("calls_on_closed_database")
     res.require("io_fault_leftover_checks")
     res.require("listing_checks")
     res.require("rejected_write_checks")
